@@ -5,6 +5,7 @@ import (
 	"encoding/json"
 	"fmt"
 	"net"
+	"net/http"
 	"net/http/httptest"
 	"net/netip"
 	"net/url"
@@ -13,6 +14,7 @@ import (
 	"time"
 
 	"github.com/DataDog/datadog-traceroute/cache"
+	"github.com/DataDog/datadog-traceroute/publicip"
 	"github.com/DataDog/datadog-traceroute/result"
 	"github.com/DataDog/datadog-traceroute/reversedns"
 	"github.com/DataDog/datadog-traceroute/server"
@@ -75,6 +77,18 @@ func (f *stubFetcher) GetIP(ctx context.Context) (net.IP, error) {
 		return net.ParseIP("192.0.2.200"), nil
 	}
 	return nil, fmt.Errorf("public ip unavailable")
+}
+
+type hangTransport struct{}
+
+func (hangTransport) RoundTrip(req *http.Request) (*http.Response, error) {
+	vsched.Yield("http")
+	if d := req.Context().Done(); d != nil {
+		<-vsched.RecvCh(d)
+		return nil, req.Context().Err()
+	}
+	vsched.Block(vsched.Never, -1, "http exchange stalled and the request carries no context")
+	return nil, fmt.Errorf("unreachable")
 }
 
 type RTResult struct {
@@ -256,6 +270,16 @@ func RunRT(cfg vsched.Config, sc *RTScn) *RTResult {
 		vsched.Yield("rdns.lookup")
 		out.RDNSCalls[addr]++
 		r, ok := sc.RDNS[addr]
+		if !ok {
+			r, ok = sc.RDNS["*"]
+		}
+		if r == "!hang" {
+			if d := ctx.Done(); d != nil {
+				<-vsched.RecvCh(d)
+				return nil, ctx.Err()
+			}
+			vsched.Block(vsched.Never, -1, "resolver stalled and the lookup carries no context")
+		}
 		switch {
 		case !ok:
 			return []string{"host-" + addr + "."}, nil
@@ -270,6 +294,9 @@ func RunRT(cfg vsched.Config, sc *RTScn) *RTResult {
 	f := &stubFetcher{mode: sc.PublicIP}
 	out.Fetcher = f
 	tr := traceroute.VerifNewTraceroute(f)
+	if sc.PublicIP == "hang" {
+		tr = traceroute.VerifNewTraceroute(publicip.VerifNewFetcher(&http.Client{Transport: hangTransport{}}))
+	}
 	params := traceroute.TracerouteParams{Hostname: sc.Hostname, Port: port, Protocol: sc.Protocol, MinTTL: sc.MinTTL, MaxTTL: sc.MaxTTL, Delay: sc.DelayMs,
 		Timeout: time.Duration(sc.TimeoutMs) * time.Millisecond, TCPMethod: traceroute.TCPMethod(sc.Method), WantV6: sc.WantV6, TCPSynParisTracerouteMode: sc.Paris,
 		ReverseDns: sc.ReverseDNS, CollectSourcePublicIP: sc.PublicIP != "", TracerouteQueries: sc.Queries, E2eQueries: sc.E2e, SkipPrivateHops: sc.SkipPrivate}
